@@ -371,6 +371,7 @@ def check_word_ops(fx, rep):
                     s |= deriv.get(m["local"], set())
             return s
 
+        self_guarded = set()
         prim_sites = []  # (primname, left_roots, right_roots, is_signed, ps, node)
         problems = []
         uses_i256 = False
@@ -407,6 +408,25 @@ def check_word_ops(fx, rep):
                 cd = n.get("def") or ""
                 if any(cd.endswith(x) or x + "<" in cd for x in ("::unwrap", "::expect")):
                     problems.append((F.loc(n["span"]), f"`{m}` may panic"))
+                if m in ("checked_div", "checked_rem") and not sgn and n["args"]:
+                    # on unsigned words `a.checked_div(b)` is None exactly for b == 0 and `a / b` otherwise: with None mapped to
+                    # zero it IS the guarded wrapping form (not so on I256, where MIN / -1 is None as well)
+                    par = ps[-1][0] if ps and ps[-1][1] == "recv" else None
+                    none_is_zero = False
+
+                    def is_zero_expr(x):
+                        t_ = T.term(x, T.Env())
+                        return t_ == ("lit", "0") or (t_[0] in ("path",) and str(t_[1]).split("::")[-1] in ("zero", "ZERO")) or (t_[0] == "call" and isinstance(t_[1], str) and F.strip_generics(t_[1]).split("::")[-1] == "zero" and not t_[2]) or (t_[0] == "call" and any(str(a_).endswith("ZERO')") or a_ == ("lit", "0") for a_ in t_[2]) and F.strip_generics(str(t_[1])).split("::")[-1] in ("from_le", "from"))
+
+                    if par is not None and par.get("k") == "MethodCall":
+                        if par["method"] in ("map_or_else", "map_or", "unwrap_or", "unwrap_or_else") and par["args"] and is_zero_expr(par["args"][0]):
+                            none_is_zero = True
+                        if par["method"] == "unwrap_or_default":
+                            none_is_zero = True
+                    if none_is_zero:
+                        prim_sites.append(("wrapping_" + m[len("checked_"):], roots(n["recv"]), roots(n["args"][0]), sgn, ps, n))
+                        self_guarded.add(id(n))
+                        continue
                 if m in ("pow", "checked_pow", "abs", "div_euclid", "rem_euclid") or m.startswith("checked_") or m.startswith("overflowing_") and False:
                     if m != "pow" or True:
                         problems.append((F.loc(n["span"]), f"`{m}` on a 256-bit integer is not total"))
@@ -496,7 +516,7 @@ def check_word_ops(fx, rep):
         if guard == "zero_divisor":
             for c in carriers:
                 gs = guards_of(c[4])
-                g_ok = False
+                g_ok = id(c[5]) in self_guarded
                 for cond, br in gs:
                     # cond must compare something derived from rhs with a zero and we are in else (==) or then (!=)
                     for m, _ in F.walk(cond):
